@@ -8,7 +8,7 @@
    fam is 4 or 6; len counts bits of the family (0..32 or 0..128).
    P-layer: the reference set semantics.  I-layer: acl_ip_data::FactoryParse/DecodeMask, firstAddress/lastAddress, the
    Acl::SplayInserter<acl_ip_data*> specialisations, aclIpAddrNetworkCompare and the Ip::Address comparison operators of
-   src/ip/Address.cc with their isAnyAddr/isNoAddr special cases, to be plugged into AclSplay. *)
+   src/ip/Address.cc (one order: matchIPAddr), to be plugged into AclSplay. *)
 EXTENDS Naturals, Integers, Sequences
 Pow2 == <<1, 2, 4, 8, 16, 32, 64, 128, 256, 512, 1024, 2048, 4096, 8192, 16384, 32768, 65536>>
 P2(k) == Pow2[k + 1]
@@ -54,17 +54,17 @@ MatchLoose(values, p) == \E k \in 1..Len(values) : CoversLoose(values[k], p)
 AnswerOk(values, p, out) == (Match(values, p) => out) /\ (out => MatchLoose(values, p))
 
 \* ---------------- I-layer: the code ----------------
-\* Ip::Address: isAnyAddr, isNoAddr, matchIPAddr and the relational operators built on them
+\* Ip::Address: isAnyAddr (acl_ip_data uses an any-address addr2 for "no second address"), matchIPAddr and the relational
+\* operators, which compare by matchIPAddr() only
 IsAny(a) == a = Zero8 \/ a = V4Any
-IsNo(a) == a = Ones8 \/ a = V4No
 MatchIP(a, b) == LexCmp(a, b, 1)
-Lt(a, b) == (IsAny(a) /\ ~IsAny(b)) \/ MatchIP(a, b) < 0
-Le(a, b) == (IsAny(a) /\ ~IsAny(b)) \/ MatchIP(a, b) <= 0
-Gt(a, b) == (IsNo(a) /\ ~IsNo(b)) \/ MatchIP(a, b) > 0
-Ge(a, b) == (IsNo(a) /\ ~IsNo(b)) \/ MatchIP(a, b) >= 0
+Lt(a, b) == MatchIP(a, b) < 0
+Le(a, b) == MatchIP(a, b) <= 0
+Gt(a, b) == MatchIP(a, b) > 0
+Ge(a, b) == MatchIP(a, b) >= 0
 \* acl_ip_data as [a1, a2, m]: m is the prefix length of the contiguous mask (128 = Ip::Address::NoAddr = "no mask")
-\* DecodeMask: Ip::Address::applyMask(cidr, family) turns /0 into the all-ones mask
-MaskLen(v) == IF v.len = 0 THEN 128 ELSE PLen(v)
+\* DecodeMask: Ip::Address::applyMask(cidr, family) clears the low (family width - cidr) bits of the all-ones mask
+MaskLen(v) == PLen(v)
 \* acl_ip_data::FactoryParse
 IPrep(v) == CASE v.k = "single" -> [a1 |-> v.a, a2 |-> Zero8, m |-> 128]
               [] v.k = "cidr" -> [a1 |-> AndMask(v.a, MaskLen(v)), a2 |-> Zero8, m |-> MaskLen(v)]
